@@ -19,11 +19,16 @@ RULE = ("(1) sweep: every (input, size, algorithm) of the small partition/packin
         "(2) histories: over a call alphabet (every algorithm on colliding inputs, plus failing calls) EVERY ordered pair (c1,c2) is "
         "executed in a fresh process forked from a pristine interpreter that has imported but never called prtpy; the result of c2 "
         "must equal its result as a singleton history. (3) closure: after every singleton history the fingerprint of all prtpy "
-        "module state (globals, function defaults/closures, class attributes, singletons) must equal the initial one - then one "
-        "abstract state is reachable and results are history-independent for histories of any length over the alphabet. "
+        "module state (globals, function defaults/closures, class attributes, singletons, lru caches) is compared with the initial one - "
+        "if equal, one abstract state is reachable and results are history-independent for histories of any length over the alphabet "
+        "(reported in coverage.explorer.closure; a change of state is an observation, not a violation - the property is about results). "
         "(4) chain: one process executes an Eulerian circuit through all ordered pairs (|A|^2 calls from non-initial states), every "
         "result compared with its singleton reference. (5) generators: for pairs of live generators (CKK generator, inclusion-"
         "exclusion tree, all_combinations) ALL interleavings of their next() steps; each generator's yields must equal its solo run. "
+        "(6) grid chains: for each family of algorithms that share code, a dense grid of calls in which neighbours differ in ONE "
+        "argument (same items with the next bin size / bin count / objective / switch / output type / format) is executed as one long "
+        "history in one process, in three visiting orders (forward, reverse, size-major); every result is compared with the result of "
+        "the same call in a freshly forked pristine process; a mismatch is minimised to a two-call history where possible. "
         "states = distinct histories / sweep points executed, transitions = real calls; non-trivial = histories of length 2 with two "
         "different calls, interleavings that actually switch generators, sweep points whose result has >= 2 non-empty bins.")
 ASSUMPTIONS = ["the fingerprint sees module globals, function defaults/kwdefaults/closure cells, class attributes and instance dicts of prtpy "
@@ -256,6 +261,126 @@ def _run_generators_child(i, j):
             "solo_yields": (la - 1, lb - 1), "bad": bad}
 
 
+
+# ------------------------------------------------------------------ (6) grid chains: long histories over dense collision families
+
+def grid_families(tier):
+    """family name -> list of calls.  Within a family the calls differ from their neighbours in ONE argument (same items with the
+    next size, same items and size with the next algorithm / objective / switch / output type / format), so that any state kept
+    across calls under a key that omits an argument is hit by a colliding later call.  Families group algorithms that share code."""
+    q = tier == "quick"
+    fam = {}
+    P = list(spaces.multisets((0, 1, 2, 3, 5), 4, 5 if q else 6))
+    ks = (2, 3)
+    f1, f2, fdp, fcb = [], [], [], []
+    for idx, ms in enumerate(P):
+        items = list(scopes.scramble(ms))
+        fmts = ("list", "dict_str") if idx % 4 == 0 else ("list",)
+        for fmt in fmts:
+            for k in ks:
+                for a in ("greedy", "roundrobin", "multifit", "kk"):
+                    f1.append({"algo": a, "items": items, "k": k, "fmt": fmt})
+                for o in scopes.CG_OBJECTIVES:
+                    for sw in ({}, {"use_set_of_seen_states": False, "use_lower_bound": False}):
+                        for out in ("PartitionAndSumsTuple", "Sums"):
+                            f1.append({"algo": "cg", "items": items, "k": k, "fmt": fmt, "out": out, "kw": dict(sw, objective=o)})
+                for a in ("kk", "ckk", "snp", "rnp"):
+                    for out in ("PartitionAndSumsTuple", "Sums"):
+                        f2.append({"algo": a, "items": items, "k": k, "fmt": fmt, "out": out})
+                if k ** len(items) <= 1100:
+                    for o in scopes.CG_OBJECTIVES:
+                        fdp.append({"algo": "dp", "items": items, "k": k, "fmt": fmt, "kw": {"objective": o}})
+            for d in (None, 1, 2):
+                fcb.append({"algo": "cbldm", "items": items, "k": 2, "fmt": fmt, "kw": {} if d is None else {"partition_difference": d}})
+    fam["balance+cg"] = f1; fam["kk-ckk-snp-rnp"] = f2; fam["dp"] = fdp; fam["cbldm"] = fcb
+    filp = []
+    for ms in spaces.multisets((1, 2, 3), 3, 3):
+        for k in ks:
+            for o in ("MinimizeDifference", "MaximizeSmallestSum"):
+                for cp in (1, 2):
+                    filp.append({"algo": "ilp", "items": list(ms), "k": k, "kw": {"objective": o, "copies": cp}})
+    fam["ilp"] = filp
+    ffit = []
+    for idx, ms in enumerate(spaces.multisets((2, 3, 4, 5, 7), 4, 6 if q else 7)):
+        items = list(scopes.scramble(ms))
+        fmts = ("list", "dict_str") if idx % 6 == 0 else ("list",)
+        for fmt in fmts:
+            for B in (9, 10, 11):
+                for a in ("ff", "ffd", "bf", "bfd"):
+                    ffit.append({"algo": a, "items": items, "B": B, "fmt": fmt})
+                for out in ("PartitionAndSumsTuple", "Sums"):
+                    ffit.append({"algo": "bc", "items": items, "B": B, "fmt": fmt, "out": out})
+    fam["fit+bin-completion"] = ffit
+    fcov = []
+    for idx, ms in enumerate(spaces.multisets((1, 2, 3, 4, 5, 7), 3, 5 if q else 6)):
+        items = list(scopes.scramble(ms))
+        fmts = ("list", "dict_str") if idx % 6 == 0 else ("list",)
+        for fmt in fmts:
+            for B in (6, 7, 8):
+                for a in scopes.COVER_ALGOS:
+                    fcov.append({"algo": a, "items": items, "B": B, "fmt": fmt})
+    fam["covering"] = fcov
+    for calls in fam.values():
+        for c in calls:
+            c.setdefault("out", "PartitionAndSumsTuple")
+    return fam
+
+
+def _size_major(calls):
+    """a second visiting order: all inputs for one (algorithm, configuration, size) before the next size"""
+    def key(ic):
+        i, c = ic
+        return (c["algo"], cfg_str(c), c.get("k", c.get("B")), i)
+    return [i for i, _ in sorted(enumerate(calls), key=key)]
+
+
+def grid_orders(n, calls):
+    return {"forward": list(range(n)), "reverse": list(range(n - 1, -1, -1)), "size-major": _size_major(calls)}
+
+
+def _obs_of(c):
+    obs = repo.call(c)
+    return (obs[0], obs[1]) if obs[0] == "ok" else obs
+
+
+def run_grid_refs(arg):
+    """pristine worker: one fresh fork per call -> reference observations (history-free by construction)"""
+    tier, family, lo, hi = arg
+    assert not _TOUCHED[0], "reference worker is not pristine"
+    calls = grid_families(tier)[family]
+    return {"refs": [(i, _in_child(_obs_of, calls[i])) for i in range(lo, hi)], "family": family}
+
+
+def _grid_chain_child(calls, order, refs):
+    bad = None
+    n = 0
+    for pos, i in enumerate(order):
+        o = _obs_of(calls[i]); n += 1
+        if o != refs[i]:
+            bad = {"pos": pos, "index": i, "expected": refs[i], "observed": o}
+            break
+    return {"executed": n, "bad": bad}
+
+
+def run_grid_chain(arg):
+    tier, family, oname, refs = arg
+    assert not _TOUCHED[0], "chain worker is not pristine"
+    calls = grid_families(tier)[family]
+    order = grid_orders(len(calls), calls)[oname]
+    res = _in_child(_grid_chain_child, calls, order, refs)
+    bad = res["bad"]
+    if bad is not None:
+        # minimise: is one earlier call enough to disturb it?  (every earlier call is tried as a depth-2 history)
+        t = bad["index"]
+        for pos in range(bad["pos"] - 1, -1, -1):
+            j = order[pos]
+            o = _in_child(lambda a, b: (_obs_of(a), _obs_of(b))[1], calls[j], calls[t])
+            if o != refs[t]:
+                bad["pair"] = [j, t]
+                break
+    return {"grid": res, "family": family, "order": oname, "n": len(calls)}
+
+
 # ------------------------------------------------------------------ (1) sweep: arguments, repeatability, result aliasing
 
 def _raw_call(case, items, valueof):
@@ -335,6 +460,7 @@ def bounds(tier):
     n = len(alphabet(tier))
     return {"alphabet": n, "depth-2 histories": n * n, "singletons": n, "chain length": n * n + 1,
             "generator pairs": "all unordered pairs (with repetition) of 7 generator kinds, all interleavings of <=7 steps each",
+            "grid chains": {f: len(c) for f, c in grid_families(tier).items()},
             "sweep": "partition values 0..4, 1..4 items, k=1..3; packing all sequences 1..4 over 0..6 (B=6); covering multisets 1..5 over 1..9 (B=6); x list/array/dict"}
 
 
@@ -349,6 +475,7 @@ def explore(tier, seed, pmap):
     ref = {}
     acc = Acc(ID, "closure")
     fp0 = None
+    closure_lost = set()
     for res in pmap("run_histories", batches):
         if "harness_error" in res:
             yield res; return
@@ -361,10 +488,17 @@ def explore(tier, seed, pmap):
                 acc.violation("harness", "", _label(A[i]), "initial_fingerprint_varies", "identical pristine states", F.diff(fp0, h["fp0"]), None)
             d = F.diff(h["fp0"], h["steps"][0]["fp"])
             if d:
-                acc.violation(A[i]["algo"], cfg_str(A[i]), inp_str(A[i]), "module_state_changed_by_call", "fingerprint unchanged",
-                              {k: v for k, v in list(d.items())[:3]}, {"part": "history", "tier": tier, "history": [i]})
+                # state kept across calls is not by itself a violation (a cache with a complete key leaves every result
+                # unchanged): it voids the one-abstract-state argument, which evidence then says, and the decision rests on
+                # the explored histories (depth 2, alphabet chain, grid chains over colliding calls)
+                acc.note("closure_lost: module state changed by a call")
+                for lab in d:
+                    closure_lost.add(lab)
             acc.outcome(ref[i])
     stats["fingerprint_entries"] = len(fp0 or {})
+    stats["closure"] = ("holds: every call of the alphabet maps the fingerprinted module state to itself - one reachable abstract state"
+                        if not closure_lost else
+                        "LOST: calls change module state " + ", ".join(sorted(closure_lost)[:8]) + " - history independence is established only for the explored histories")
     acc.sample({"part": "closure", "call": _label(A[0]), "fingerprint_entries": len(fp0 or {})})
     yield acc.result()
     # ---- all ordered pairs from the initial state
@@ -403,8 +537,7 @@ def explore(tier, seed, pmap):
                               ref[i], st["obs"], {"part": "chain", "tier": tier, "upto": t})
                 break
         if steps and F.diff(res["chain"]["fp0"], steps[-1]["fp"]):
-            acc.violation("chain", "", f"{len(circuit)} calls", "module_state_changed_by_chain", "fingerprint unchanged",
-                          list(F.diff(res["chain"]["fp0"], steps[-1]["fp"]).items())[:3], {"part": "chain", "tier": tier, "upto": len(circuit)})
+            acc.note("closure_lost: module state changed by the chain")
     acc.sample({"part": "chain", "length": stats.get("chain_calls")})
     yield acc.result()
     # ---- generator interleavings
@@ -425,6 +558,38 @@ def explore(tier, seed, pmap):
         acc.outcome((g["names"], g["solo_yields"]))
     stats["generator_interleavings"] = tot
     acc.sample({"part": "generators", "kinds": [nm for nm, _ in _gen_factories()]})
+    yield acc.result()
+    # ---- grid chains
+    fams = grid_families(tier)
+    acc = Acc(ID, "grid")
+    refs = {f: {} for f in fams}
+    jobs = []
+    for f, calls in fams.items():
+        step = 40 if f != "ilp" else 8
+        jobs += [(tier, f, lo, min(lo + step, len(calls))) for lo in range(0, len(calls), step)]
+    for res in pmap("run_grid_refs", jobs):
+        if "harness_error" in res:
+            yield res; return
+        for i, o in res["refs"]:
+            refs[res["family"]][i] = o
+            acc.ran(fams[res["family"]][i]["algo"])
+    jobs = [(tier, f, oname, refs[f]) for f in fams for oname in ("forward", "reverse", "size-major")]
+    jobs.sort(key=lambda j: -len(fams[j[1]]))
+    stats["grid"] = {f: len(c) for f, c in fams.items()}
+    for res in pmap("run_grid_chain", jobs):
+        if "harness_error" in res:
+            yield res; return
+        g = res["grid"]; f = res["family"]; calls = fams[f]
+        acc.point(nontrivial=True, n=g["executed"]); acc.ran("grid:" + f, g["executed"]); acc.check(g["executed"])
+        acc.outcome((f, res["order"], g["executed"]))
+        b = g["bad"]
+        if b is not None:
+            c = calls[b["index"]]
+            hist = b.get("pair") or None
+            where = (f"after {_label(calls[hist[0]])}" if hist else f"at position {b['pos']} of the {res['order']} chain of family {f}")
+            acc.violation(c["algo"], cfg_str(c), inp_str(c) + " " + where, "result_depends_on_history", b["expected"], b["observed"],
+                          {"part": "grid", "tier": tier, "family": f, "order": res["order"], "pos": b["pos"], "pair": hist})
+    acc.sample({"part": "grid", "families": stats["grid"], "orders": ["forward", "reverse", "size-major"]})
     yield acc.result()
     # ---- sweep
     q = tier == "quick"
@@ -462,8 +627,6 @@ def replay(case, acc):
         refh = _in_child(_execute_history, [A[last]])
         if h["steps"][-1]["obs"] != refh["steps"][0]["obs"]:
             acc.violation(A[last]["algo"], cfg_str(A[last]), inp_str(A[last]), "result_depends_on_previous_call", refh["steps"][0]["obs"], h["steps"][-1]["obs"], case)
-        if F.diff(h["fp0"], h["steps"][-1]["fp"]):
-            acc.violation(A[last]["algo"], cfg_str(A[last]), inp_str(A[last]), "module_state_changed_by_call", "fingerprint unchanged", list(F.diff(h["fp0"], h["steps"][-1]["fp"]).items())[:3], case)
     elif part == "chain":
         A = alphabet(case["tier"])
         circuit = _eulerian(len(A))[:case["upto"] + 1]
@@ -472,6 +635,17 @@ def replay(case, acc):
         refh = _in_child(_execute_history, [A[last]])
         if h["steps"][-1]["obs"] != refh["steps"][0]["obs"]:
             acc.violation(A[last]["algo"], cfg_str(A[last]), inp_str(A[last]), "result_depends_on_history", refh["steps"][0]["obs"], h["steps"][-1]["obs"], case)
+    elif part == "grid":
+        calls = grid_families(case["tier"])[case["family"]]
+        if case.get("pair"):
+            idx = case["pair"]
+        else:
+            idx = grid_orders(len(calls), calls)[case["order"]][:case["pos"] + 1]
+        last = calls[idx[-1]]
+        got = _in_child(lambda cs: [_obs_of(c) for c in cs][-1], [calls[i] for i in idx])
+        want = _in_child(_obs_of, last)
+        if got != want:
+            acc.violation(last["algo"], cfg_str(last), inp_str(last), "result_depends_on_history", want, got, case)
     elif part == "generators":
         g = _in_child(_run_generators_child, *case["pair"])
         for b in g["bad"]:
